@@ -955,9 +955,10 @@ class XMLSchemaBase(XsdValidator, ElementPathMixin[Union[SchemaType, XsdElement]
             return self.maps.elements.get(tag)
         elif path[-1] == '*':
             xsd_element = self.find(path[:-1] + tag, namespaces)
-            if isinstance(xsd_element, XsdElement):
+            if isinstance(xsd_element, XsdElement) and xsd_element.name == tag:
                 return xsd_element
             else:
+                # not found, or a member of the substitution group of the found element
                 return self.maps.elements.get(tag)
         else:
             xsd_element = self.find(path, namespaces)
